@@ -282,7 +282,66 @@ func execFnOver(c px.Context, args []sx.Sexp) core.Result {
 	return res
 }
 
+// Implementation-only op `@ifacecov KIND`: an INTERFACE I = {functions => {f => Callable[[0,0],Any]}} and a child that overrides f
+// with `override => true` and a type the override check admits:
+//
+//	KIND ::= same-i | same-a     the same type Callable[[0,0],Any]; the child is an interface again / declares an attribute
+//	       | narrow-i | narrow-a the narrower Callable[[0,0],Integer]
+//
+// "An instance of a subtype is an instance of every ancestor": new(Child) must be an instance of I, and Child assignable to I.
+// Classes: ifacecov-rejected, fault, and `iface-override-covariant` for the known finding C17-iface-override-covariant
+// (Implements demands an EQUAL function type, the override check an ASSIGNABLE one: the narrow kinds fail).
+func execIfaceCov(c px.Context, args []sx.Sexp) core.Result {
+	if len(args) != 1 || args[0].IsList {
+		return core.Result{Out: "bad-op", Pred: "n/a"}
+	}
+	kind := args[0].Atom
+	if kind != "same-i" && kind != "same-a" && kind != "narrow-i" && kind != "narrow-a" {
+		return core.Result{Out: "bad-op", Pred: "n/a"}
+	}
+	id := atomic.AddInt64(&ifxCounter, 1)
+	res := core.Result{Out: "ok", Pred: "ok", NonTrivial: true, Tags: []string{"ifacecov"}}
+	px.DoWithContext(c.Fork(), func(fc px.Context) {
+		ret := "Any"
+		if strings.HasPrefix(kind, "narrow") {
+			ret = "Integer"
+		}
+		attr := ""
+		if strings.HasSuffix(kind, "-a") {
+			attr = "attributes => {a => {type => Integer, value => 0}}, "
+		}
+		var ti, tc px.Type
+		var o px.Value
+		if cls := safely(func() {
+			ti = fc.ParseType(fmt.Sprintf("Object[{name => 'V%d::I', functions => {f => Callable[[0,0],Any]}}]", id))
+			px.AddTypes(fc, ti)
+			tc = fc.ParseType(fmt.Sprintf("Object[{name => 'V%d::C', parent => V%d::I, %sfunctions => {f => {type => Callable[[0,0],%s], override => true}}}]", id, id, attr, ret))
+			px.AddTypes(fc, tc)
+			o = px.New(fc, tc)
+		}); cls != "" {
+			res.Pred = "FAIL ifacecov-rejected a function override of an assignable type was refused: " + cls
+			return
+		}
+		inst, asgn := false, false
+		if cls := safely(func() { inst, asgn = px.IsInstance(ti, o), px.IsAssignable(ti, tc) }); cls != "" {
+			res.Pred = "FAIL fault " + cls
+			return
+		}
+		if !inst || !asgn {
+			class := "iface-subtype-not-instance"
+			if strings.HasPrefix(kind, "narrow") {
+				class = "iface-override-covariant"
+			}
+			res.Pred = fmt.Sprintf("FAIL %s an instance of the child is an instance of its interface parent: %v; the child is assignable to it: %v", class, inst, asgn)
+		}
+	})
+	return res
+}
+
 func genIfaceX(g *core.G) {
+	for _, k := range []string{"same-i", "same-a", "narrow-i", "narrow-a"} {
+		g.Emit("@ifacecov " + k)
+	}
 	var cases []string
 	for c := range fnoverCases {
 		cases = append(cases, c)
